@@ -42,12 +42,13 @@ def check(run):
                 run.check(fi is gate, r, fi.short, 'contract evaluator call ' + q.unparse(c.func)[:50],
                           'contract conditions are evaluated outside the gate (would run with ignore_contract=True)', c)
     run.floor(n, 1, r, 'contract evaluator call sites')
-    first = G.body[0]
-    if isinstance(first, ast.Expr) and isinstance(first.value, ast.Constant):
-        first = G.body[1]
-    good = isinstance(first, ast.If) and q.canon_atom(first.test) == ('truthy', 'self._ignore_contract', '', True) and \
+    gates = [st for st in G.body if isinstance(st, ast.If) and q.canon_atom(st.test) == ('truthy', 'self._ignore_contract', '', True)]
+    first = gates[0] if gates else G.body[0]
+    before = G.body[:G.body.index(first)] if gates else []
+    inert = all(not any(isinstance(x, (ast.Call, ast.Raise, ast.For, ast.While, ast.Attribute)) for x in ast.walk(st)) for st in before)
+    good = bool(gates) and inert and \
         len(first.body) == 1 and isinstance(first.body[0], ast.Return) and (first.body[0].value is None or isinstance(first.body[0].value, ast.Constant) and first.body[0].value.value is None) and not first.orelse
-    run.check(good, r, gate.short, 'first statement: `if self._ignore_contract: return`', 'the gate is not the first statement', first)
+    run.check(good, r, gate.short, 'first statement: `if self._ignore_contract: return`', 'the gate is not the first effectful statement', first)
     if good:
         cfg = build_cfg(G)
         tn = cfg.node_of(first)
@@ -67,6 +68,17 @@ def check(run):
                 good = fi.short == 'Interpreter.__init__' and kind == 'assign' and isinstance(node.value, ast.Name) and node.value.id == 'ignore_contract'
                 run.check(good, r, fi.short, 'write:_ignore_contract ' + kind, '_ignore_contract must only be set by the constructor from its parameter', node)
     run.floor(nwr, 1, r, 'writers of _ignore_contract')
+    # who-may-read: the flag influences nothing but the gate
+    nrd = 0
+    for fi in prog.functions():
+        if fi.outer is not None:
+            continue
+        for n_ in q.walk(fi.node):
+            if isinstance(n_, ast.Attribute) and n_.attr == '_ignore_contract' and isinstance(n_.ctx, ast.Load):
+                nrd += 1
+                run.check(fi is gate and gates and q.in_node(n_, gates[0].test), r, fi.short, 'read of _ignore_contract in the gate test only',
+                          'behaviour other than contract evaluation depends on ignore_contract: runs with and without contract checking can differ', n_)
+    run.check(nrd >= 1, r, gate.short, 'the gate reads _ignore_contract', '_ignore_contract is never read: ignore_contract=True has no effect through the gate', G)
     init = run.fn('Interpreter.__init__')
     run.check(q.param_defaults(init.node).get('ignore_contract', None) is False, r, init.short, 'contracts are checked by default', 'default changed', init.node)
 
